@@ -36,16 +36,16 @@ ASSUMPTIONS = [
 
 NP = NotPassed()
 PROBES = [
-    NP, None, 1, "a", [], {}, {"a": 1}, {"a": "s"}, {"a": 1, "b": "s"}, {"a": 1, "b": 2}, {"b": "s"}, {"a": 1, "c": True}, {"a": 1, "c": 1}, {"a": "s", "c": True},
+    NP, None, 1, "a", [], {}, {"a": 1}, {"a": True}, {"a": 1, "c": 1}, {"a": 1, "k": False}, {"a": "s"}, {"a": 1, "b": "s"}, {"a": 1, "b": 2}, {"b": "s"}, {"a": 1, "c": True}, {"a": 1, "c": 1}, {"a": "s", "c": True},
     {"a": 1, "k": 0}, {"a": 1, "k": 0, "c": False}, {"a": 1, "z1": 5}, {"a": 1, "z1": "s"}, {"a": 1, "zz": None}, {"a": 1, "b": "s", "c": True, "d": 4},
     {"a": 1, "class": 3}, {"a": 1, "class": "x"}, {"a": 1, "ab": 1}, {"a": 1, "b": "s", "k": 1, "z1": 2, "q": 3}, {"a": True}, {"k": 0}, {"a": 1, "d": 1}, {"a": 1, "d": 1, "e": 2},
     {"a": 2, "b": "dd"}, {"a": 1, "b": None},
 ]
 
 KWMENU = {
-    "default": [{"a": 1}, {"a": "s", "c": True}],
-    "const": [{"a": 1}],
-    "enum": [[{"a": 1}, {"a": 1, "c": True}, {"a": 1, "k": 0}]],
+    "default": [{"a": 1}, {"a": "s", "c": True}, {"a": True}],
+    "const": [{"a": 1}, {"a": True}],
+    "enum": [[{"a": 1}, {"a": 1, "c": True}, {"a": 1, "k": 0}], [{"a": True}, {"a": 1, "c": 1}, {"a": 1, "k": False}]],
     "required": [["k"], []],
     "minProperties": [2],
     "maxProperties": [2],
@@ -71,11 +71,13 @@ ELEMS = {
 }
 
 
-def kw_choices(max_size):
+def kw_choices(max_size, full=False):
     out = [()]
     for r in range(1, max_size + 1):
         for combo in itertools.combinations(KWLIST, r):
             for idx in itertools.product(*[range(len(KWMENU[k])) for k in combo]):
+                if r >= 2 and not full and sum(1 for i in idx if i) > 1:
+                    continue  # quick tier: at most one keyword of a pair takes a non-first value
                 out.append(tuple(zip(combo, idx)))
     return out
 
@@ -345,7 +347,7 @@ def run_history(st, decl_idx, first, depth):
 def plan(tier, seed):
     big = 2
     items = []
-    p1, p2 = kw_choices(1), kw_choices(big)
+    p1, p2 = kw_choices(1), kw_choices(big, full=(tier == "thorough"))
     decls = []
     for pc in p1:
         for cc in p2:
